@@ -5,3 +5,7 @@ From LOFGen Require Import SrcFacts.
 
 Theorem C12_no_decoder_keeps_a_view : view_sites = nil.
 Proof. reflexivity. Qed.
+
+(* the stream hands a pooled buffer back only after the parser has returned *)
+Theorem C12_buffer_recycled_after_parse : recycle_after_parse = true.
+Proof. reflexivity. Qed.
